@@ -309,7 +309,10 @@ def gen_wide(full):
   rd = R('T', vs[12], vs[10], vs[2], vs[1], body=(Lit('W', *vs),))
   yield Case('WIDE', Program([W, rd]), ['T', 'W'])
   yield Case('WIDE', Program([W, Ann('@NoInject(W);'), rd]), ['T', 'W'])
-  yield Case('WIDE', Program([W, Ann('@NoInject(W);'), R('T', vs[10], vs[11], body=(Lit('W', **{'col10': vs[10], 'col11': vs[11], 'col2': vs[2]}), Cmp('>', vs[2], N(2))))]), ['T'])
+  for anns in ([Ann('@NoInject(W);')], []):
+    yield Case('WIDE', Program([W] + anns + [R('T', vs[10], vs[11], body=(Lit('W', **{'col10': vs[10], 'col11': vs[11], 'col2': vs[2]}), Cmp('>', vs[2], N(2))))]), ['T'])
+    yield Case('WIDE', Program([W] + anns + [R('T', vs[12], vs[1], body=(Lit('W', **{'col12': vs[12], 'col1': vs[1]}),))]), ['T'])
+    yield Case('WIDE', Program([W] + anns + [R('T', x, body=(Lit('B', x), Lit('W', **{'col10': Bin('+', x, N(10)), 'col0': x})))]), ['T'])
   Wn = R('W', named={'f%d' % i: c for i, c in enumerate(cols)}, body=(Lit('A', x, y),))
   yield Case('WIDE', Program([Wn, R('T', vs[10], vs[2], vs[11], body=(Lit('W', f10=vs[10], f2=vs[2], f11=vs[11]),))]), ['T', 'W'])
   # records and lists with >= 10 members
@@ -398,6 +401,15 @@ def gen_str(full, agg=False):
     R('T', s1, body=(Lit('S', s1),), distinct=True),
     R('T', s1, body=(('or', ((Lit('S', s1),), (Lit('S', s1), Cmp('==', s1, S('a'))))),)),
   ]
+  for name in ('col0', 'col1', 'value', 'x', 'A', 't_0', 'logica_value', 'S'):
+    progs += [
+      R('T', x, S(name), body=(Lit('A', x, y),)),
+      R('T', x, s1, body=(Lit('A', x, y), Eq(s1, S(name)))),
+      R('T', x, body=(Lit('A', x, y), Cmp('!=', Bin('++', S(name), S('')), S(name)))),
+      R('T', s1, Bin('==', s1, S(name)), body=(Lit('S', s1),)),
+      R('T', x, s1, body=(Lit('B', x), ('in', s1, ('list', (S(name), S('b')))))),
+      R('T', x, value=S(name), body=(Lit('B', x),)),
+    ]
   for r in progs:
     is_agg = r.is_agg() or r.distinct or 'Comb' in repr(r.body) or "'comb'" in repr(r.body)
     if bool(is_agg) != bool(agg): continue
@@ -431,7 +443,7 @@ def c01_cases(thorough):
     c.dbs = semcheck.dbs_abs(); c.fact_dbs = semcheck.FACT_DBS_ABS
     yield c
   for c in gen_wide(thorough):
-    c.dbs = dbs_ab(2); c.fact_dbs = FACT_DBS_AB
+    c.dbs = dbs_ab(2); c.fact_dbs = FACT_DBS_AB[:1] if c.info == 'big' else FACT_DBS_AB      # the 12-fold product over 3 rows is 531 441 rows
     yield c
 
 
@@ -602,6 +614,32 @@ def gen_wide_agg(full):
     yield Case('WIDEAGG', Program([dfn, R('T', x, Aggr(op + '3', ('arrow', y, Bin('-', Bin('*', y, y), Bin('*', y, N(4))))), body=big, distinct=True)]), ['T'])
 
 
+def gen_mix(full):
+  """features that are each covered alone, used together in one rule: disjunction next to negation / combine / implication / aggregation,
+  and `in` whose left side is an expression or constant and whose list elements coincide on some rows (multiplicity = number of matching elements)"""
+  w = V('w')
+  ors = [('or', ((Lit('A', x, y),), (Lit('A', y, x),))), ('or', ((Cmp('<', x, N(2)),), (Cmp('>=', x, N(2)),))), ('or', ((Lit('A', x, y), Lit('B', y)), (Lit('B', y), Cmp('!=', x, y)), (Eq(y, N(1)),)))]
+  outs = [Not(Lit('A', x, x)), Not(Lit('A', x, z), Lit('B', z)), ('imp', (Lit('A', x, z),), (Lit('B', z),)), Eq(s_, Comb('Sum', z, (Lit('A', x, z),))), ('aggeq', 's', 'List', z, (Lit('A', z, x),)),
+          Cmp('>', Comb('Count', z, (Lit('A', z, x),)), N(0)), Eq(s_, Bin('+', Comb('Max', z, (Lit('A', x, z),)), N(1)))]
+  for o in ors:
+    for c in outs:
+      head = (x, s_) if 's' in lang.bvars((c,)) else (x,)
+      yield Case('MIX', Program([R('T', *head, body=(Lit('B', x), c, o))]), ['T'])
+      yield Case('MIX', Program([R('T', *head, body=(Lit('B', x), o, c))]), ['T'])
+    yield Case('MIX', Program([R('T', x, Aggr('Sum', N(1)), body=(Lit('B', x), Not(Lit('A', x, x)), o), distinct=True)]), ['T'])
+    yield Case('MIX', Program([R('T', x, Aggr('List', x), Aggr('Count', x), body=(Lit('B', x), o, Cmp('>=', Comb('Count', z, (Lit('A', z, x),)), N(0))), distinct=True)]), ['T'])
+    yield Case('MIX', Program([R('T', x, value=Aggr('Sum', N(1)), body=(Lit('B', x), Not(Lit('A', x, z), Lit('B', z)), o))]), ['T'])
+  ins = [('in', Bin('+', x, N(1)), ('list', (Bin('+', y, N(1)), Bin('+', x, N(1))))), ('in', N(2), ('list', (x, y, N(2)))), ('in', x, ('list', (y, y))), ('in', x, ('list', (y, x, N(1)))),
+         ('in', Bin('*', x, N(1)), ('list', (y, x))), ('in', Bin('+', x, y), ('list', (N(2), N(3), Bin('*', x, N(2)), Bin('*', y, N(2))))), ('in', Call('ToString', x), ('list', (Call('ToString', y), S('1'), S('1'))))]
+  for i in ins:
+    yield Case('MIX', Program([R('T', x, y, body=(Lit('A', x, y), i))]), ['T'])
+    yield Case('MIX', Program([R('T', x, y, body=(i, Lit('A', x, y)))]), ['T'])
+    yield Case('MIX', Program([R('T', x, Aggr('Count', y), body=(Lit('A', x, y), i), distinct=True)]), ['T'])
+    yield Case('MIX', Program([R('T', w, s_, body=(Lit('B', w), Eq(s_, Comb('Sum', N(1), (Lit('A', x, y), i, Cmp('<=', w, N(2)))))))]), ['T'])
+    yield Case('MIX', Program([R('T', w, body=(Lit('B', w), Not(Lit('A', x, y), i, Cmp('==', x, w))))]), ['T'])
+    yield Case('MIX', Program([R('J', x, y, body=(Lit('A', x, y), i)), R('T', x, y, body=(Lit('J', x, y), Lit('B', y)))]), ['T', 'J'])
+
+
 def gen_neg(full):
   inner = AGGE_INNER[:7]
   for ib in inner:
@@ -742,7 +780,7 @@ def c02_cases(thorough):
   for c in gen_str(thorough, agg=True):
     c.dbs = semcheck.dbs_abs(); c.fact_dbs = semcheck.FACT_DBS_ABS
     yield c
-  for g in (gen_aggh(thorough), gen_agge(thorough), gen_neg(thorough), gen_wide_agg(thorough)):
+  for g in (gen_aggh(thorough), gen_agge(thorough), gen_neg(thorough), gen_wide_agg(thorough), gen_mix(thorough)):
     for c in g:
       if c is None: continue
       t = c.text()
@@ -922,7 +960,11 @@ def c04_make_sets(prog, thorough):
   # several arguments at once
   for a, b in itertools.combinations(args, 2):
     for va, vb in (('C1', 'A1'), ('B1', 'B1'), ('D1x', 'C1')):
-      if va != a and vb != b and a not in shape_deps(prog, vb) and b not in shape_deps(prog, va): yield [('G', 'F', {a: va, b: vb})]
+      if va != a and vb != b and a not in shape_deps(prog, vb) and b not in shape_deps(prog, va):
+        yield [('G', 'F', {a: va, b: vb})]
+        if va != b and vb != a and a not in shape_deps(prog, va) and b not in shape_deps(prog, vb):
+          yield [('G', 'F', {b: vb, a: va}, 'as-written'), ('H', 'F', {a: vb, b: va}, 'as-written')]      # arguments written in reverse order; the permuted binding next to it
+          yield [('G', 'F', {a: vb, b: va}, 'as-written'), ('H', 'F', {b: vb, a: va}, 'as-written')]
   k = 5 if not thorough else 9
   for m1, m2 in itertools.product(singles[:k], singles[:k]):
     yield [('G', 'F', m1), ('H', 'F', m2)]              # the same functor twice, equal or different bindings
@@ -945,7 +987,7 @@ def c04_cases(thorough):
   for prog in c04_shapes(thorough):
     rules = [unary_rule(n, b) for n, b in prog.items()]
     for makes in c04_make_sets(prog, thorough):
-      stmts = list(rules) + [Functor(new, f, tuple(sorted(m.items()))) for new, f, m in makes]
+      stmts = list(rules) + [Functor(mk[0], mk[1], tuple(mk[2].items()) if len(mk) > 3 else tuple(sorted(mk[2].items()))) for mk in makes]
       p = Program(stmts)
       t = p.text()
       if t in seen: continue
@@ -970,6 +1012,41 @@ def c04_cases(thorough):
               if thorough or a == 'A1':
                 p2 = Program(stmts + [Functor('L', 'K', (('B1', 'C1'),)), unary_rule('W', [['K', 'L']])])
                 yield Case('FUNCTOR-DEEP', p2, ['K', 'L', 'W', 'Q'], schema='U4', dbs=dbs[::2], fact_dbs=[])
+  # every syntactic position from which an intermediate predicate can call a (functional) functor argument, the argument reached
+  # only through that position or also directly; predicate, constant, double and chained applications
+  Lo, Hi = Call('Lo'), Call('Hi')
+  r_ = V('r')
+  positions = {
+    'list': (('in', x, ('list', (Lo, Bin('+', Lo, N(1)), Hi))),),
+    'record': (Lit('A1', y), Eq(r_, ('rec', (('a', Lo), ('b', Hi)))), Eq(x, Bin('+', Bin('+', y, ('fld', r_, 'a')), ('fld', r_, 'b')))),
+    'if': (Lit('A1', y), Eq(x, ('if', Bin('>', y, Lo), Hi, y))),
+    'arith': (Lit('A1', y), Eq(x, Bin('+', y, Bin('*', Lo, Hi)))),
+    'cmp': (Lit('A1', x), Cmp('>=', x, Lo), Cmp('<=', x, Hi)),
+    'combine': (Lit('B1', x), Cmp('<=', x, Comb('Sum', Bin('+', Lo, Bin('-', y, Hi)), (Lit('A1', y),)))),
+    'combine_body': (Lit('B1', x), Cmp('>', Comb('Count', y, (Lit('A1', y), Cmp('>=', y, Lo), Cmp('<=', x, Hi))), N(0))),
+    'negation': (Lit('A1', x), Not(Lit('B1', x), Cmp('>', x, Lo), Cmp('<', x, Hi))),
+    'literal_arg': (Lit('A1', x), Lit('B1', Bin('-', Bin('+', x, Lo), Hi))),
+    'nested_call': (Lit('A1', x), Cmp('>', Call('Wf', Lo), Bin('-', x, Hi))),
+    'disjunct': (('or', ((Lit('A1', x), Cmp('<=', x, Lo)), (Lit('B1', x), Cmp('>=', x, Hi)))),),
+    'implication': (Lit('A1', x), ('imp', (Lit('B1', y), Cmp('>=', y, Lo)), (Cmp('<=', y, Bin('+', x, Hi)),))),
+    'list_element_of_record': (Lit('A1', y), ('in', r_, ('list', (('rec', (('a', Lo),)), ('rec', (('a', Hi),))))), Eq(x, Bin('+', y, ('fld', r_, 'a')))),
+  }
+  heads = {'head_expr': R('Steps', Bin('+', Bin('*', x, Lo), Hi), body=(Lit('A1', x),)), 'head_agg': R('Steps', x, Aggr('Sum', Bin('+', Bin('*', y, Lo), Hi)), body=(Lit('A1', x), Lit('B1', y)), distinct=True),
+           'head_value': R('Steps', x, value=Bin('-', Hi, Lo), body=(Lit('A1', x),))}
+  consts = [R('Lo', value=N(1)), R('Hi', value=N(3)), R('Lo2', value=N(2)), R('Hi2', value=N(0)), R('Wf', x, value=Bin('+', x, N(1)))]
+  cdbs = [d for d in dbs_u4()[::3]]
+  for pname, body in list(positions.items()) + list(heads.items()):
+    steps = heads[pname] if pname in heads else R('Steps', x, body=body)
+    arity2 = pname in ('head_agg', 'head_value')
+    use = Lit('Steps', x, y) if pname == 'head_agg' else Lit('Steps', x, logica_value=y) if pname == 'head_value' else Lit('Steps', x)
+    for direct in (False, True):
+      F = R('F', x, body=(use,) + ((Cmp('>=', x, Lo),) if direct else ()))
+      if arity2: F = R('F', x, y, body=(use,) + ((Cmp('>=', x, Lo),) if direct else ()))
+      apps = [Functor('N', 'F', (('Lo', 'Lo2'),)), Functor('NC', 'F', (('Lo', N(2)),)), Functor('NH', 'F', (('Hi', 'Hi2'),)), Functor('NB', 'F', (('Lo', 'Lo2'), ('Hi', 'Hi2'))),
+              Functor('NR', 'F', (('Hi', 'Hi2'), ('Lo', 'Lo2'))), Functor('NX', 'F', (('Hi', 'Lo2'), ('Lo', 'Hi2'))), Functor('NN', 'N', (('Hi', 'Hi2'),))]
+      for sub in ([apps[0]], [apps[1], apps[2]], [apps[3], apps[4], apps[5]], [apps[0], apps[6]], [apps[5], apps[3]]):
+        p = Program(consts + [steps, F] + sub)
+        yield Case('FUNCTOR-POS', p, ['F', 'Steps'] + [a.new for a in sub], schema='U4', dbs=cdbs, fact_dbs=[], info=dict(position=pname, direct=direct))
   # constants as arguments, value-carrying functors, aggregation inside, annotated intermediate
   extra = [
     [R('Thr', value=N(2)), R('Thr1', value=N(1)), R('F', x, body=(Lit('A1', x), Cmp('>=', x, Call('Thr')))), Functor('G', 'F', (('Thr', 'Thr1'),))],
@@ -1063,6 +1140,28 @@ def c18_cases(thorough):
           yield c
 
 
+  # 11 ordering keys (positions with two digits): the first key ties on every row, the second (col1 = x) and the tenth (col9 = -x) disagree
+  wide_head = (N(7), x, y, Bin('+', x, y), N(0), Bin('*', x, N(2)), N(1), Bin('-', y, x), N(3), Bin('-', N(0), x), Bin('-', N(0), y))
+  wide_orders = [['col%d' % i for i in range(11)], ['col0', 'col4', 'col6', 'col8', 'col1 desc', 'col2', 'col3', 'col5', 'col7', 'col9', 'col10'],
+                 ['col0', 'DESC', 'col4', 'col6', 'col8', 'col10', 'DESC', 'col9', 'col1', 'col2', 'col3', 'col5', 'col7']]
+  vs = [V('v%d' % i) for i in range(11)]
+  for order in wide_orders:
+    for K in (None, 1, 2, 3):
+      for form in ('denot', 'ann'):
+        if form == 'denot':
+          P = [R('P', *wide_head, body=(Lit('A', x, y),), order_by=order, limit=K)]; ol = None
+        else:
+          P = [R('P', *wide_head, body=(Lit('A', x, y),)), Ann('@OrderBy(P, %s);' % ', '.join('"%s"' % o for o in order))]
+          if K is not None: P.append(Ann('@Limit(P, %d);' % K))
+          ol = {'P': (order, K)}
+        for use, extra, preds, ordered in (('final', [], ['P'], True), ('plain', [R('T', vs[1], vs[2], vs[9], body=(Lit('P', *vs),))], ['T'], False),
+                                           ('agg', [R('T', vs[0], Aggr('Sum', vs[1]), Aggr('List', vs[10]), body=(Lit('P', *vs),), distinct=True)], ['T'], False)):
+          if use == 'agg' and K is None: continue
+          c = Case('ORD/wide/' + use, Program(P + extra), preds, dbs=dbs, fact_dbs=[dbs[37]], info=dict(K=K, order=order, form=form, use=use, ordered=ordered))
+          c.ol = ol
+          yield c
+
+
 # ======================================================================================== C08 plan annotations
 PLAN_ANNS = [None, '@NoInject(%s);', '@With(%s);', '@NoWith(%s);', '@Ground(%s);', '@NoInject(%s); @NoWith(%s);', '@NoInject(%s); @With(%s);']
 
@@ -1093,6 +1192,14 @@ def c08_shapes(thorough):
     for i in range(1, k):
       rs.append(R('P%d' % i, y, x, body=(Lit('P%d' % (i - 1), x, y),)) if i % 2 else R('P%d' % i, x, Bin('+', y, N(1)), body=(Lit('P%d' % (i - 1), x, y), Lit('B', x))))
     return rs + [R('T', x, y, body=(Lit('P%d' % (k - 1), x, y), Lit('P%d' % (k // 2), y, z)))]
+  # a 13-column intermediate addressed by two-digit colN names, and numeric constants in the head of an intermediate that a consumer groups by
+  wcols = [x, y, Bin('+', x, y), N(3), Bin('*', x, N(10)), Bin('-', y, x), N(6), Bin('+', y, N(7)), x, Bin('*', y, y), Bin('+', x, N(10)), Bin('+', y, N(11)), Bin('-', N(12), x)]
+  v10, v11, v12, v1 = V('v10'), V('v11'), V('v12'), V('v1')
+  S['wide_named_columns'] = ([R('P', *wcols, body=(Lit('A', x, y),)), R('T', v10, v1, body=(Lit('P', col10=v10, col1=v1),)), R('U', v12, v11, body=(Lit('P', col12=v12, col11=v11, col3=N(3)), Cmp('>', v11, N(12)))),
+                              R('W', x, body=(Lit('B', x), Lit('P', col10=Bin('+', x, N(10)), col0=x)))], ['P'])
+  k_ = V('k')
+  S['grouped_constant'] = ([R('P', N(0), x, body=(Lit('B', x),)), R('Q', N(7), x, y, body=(Lit('A', x, y),)), R('T', k_, Aggr('Sum', y), body=(Lit('Q', k_, x, y),), distinct=True),
+                            R('U', k_, Aggr('Count', x), body=(Lit('P', k_, x),), distinct=True), R('W', z, named={'m': Aggr('Max', x)}, body=(Lit('P', k_, x), Eq(z, Bin('-', k_, N(4)))), distinct=True)], ['P', 'Q'])
   S['chain4'] = (long_chain(4), ['P0', 'P1', 'P2', 'P3'], (0, 1, 6, 4))
   if thorough:
     S['chain6'] = (long_chain(6), ['P%d' % i for i in range(6)], (0, 1, 4))
